@@ -103,10 +103,15 @@ def orKinds : List V → V
   | [] => .t
   | vs => anyV vs
 
+/-- the lookup-failure sentinel `dns.ErrLookup` -/
+def isLookupFailure : LookupRes → Bool
+  | .errLookup => true
+  | _ => false
+
 /-- (R7) -/
 def resolveSpec (p : Params) (env : Env) (rc : RouteConfig) (d : String) : Except Err IP :=
   let rs := if rc.resolver = "" then env.resolvers else [rc.resolver]
-  match rs.find? (fun r => p.resolve r d != .errLookup) with
+  match rs.find? (fun r => !isLookupFailure (p.resolve r d)) with
   | none => .error .noAvailableResolvers
   | some r =>
     match p.resolve r d with
